@@ -19,7 +19,7 @@ from embit.descriptor.checksum import add_checksum, checksum
 from embit.networks import NETWORKS
 
 PROP = "C12"
-MODS = ["EmbitModel.Props.C12", "EmbitModel.Props.C12X"]
+MODS = ["EmbitModel.Props.C12", "EmbitModel.Props.C12X", "EmbitModel.Props.C12Y"]
 HARD = dgen.HARD
 
 
@@ -454,6 +454,27 @@ def hostile_texts(c, pool):
         "wsh(and_v(v:pk(%s/{0,1}/*),older(0010)))" % X, "wsh(thresh(01,pk(%s)))" % X, "wsh(multi(001,%s))" % X,
         "wpkh(%s/2147483647'/*)" % Pv, "wpkh(%s/<0H;1';2h>/*)" % Pv,
     ]
+    # audit-2 B-6: int() strips exactly 9..13 and 32 — NOT 0x1c..0x1f (which str.strip() would strip); every int()
+    # field (step, origin step, set element; before/after the digits, before the hardened marker) with each of them,
+    # and the six characters int() does strip in the same positions
+    for ch in "\x1c\x1d\x1e\x1f\x0b\x0c\r":
+        res += [
+            "wpkh(%s/0%s)" % (X, ch), "wpkh(%s/%s0/*)" % (X, ch), "wpkh(%s/0%sh/*)" % (Pv, ch),
+            "wpkh([%s/%s0]%s)" % (fp, ch, Xn), "wpkh([%s/44h/1%s]%s/0/*)" % (fp, ch, Xn),
+            "wpkh(%s/<0%s;1>/*)" % (X, ch), "wpkh(%s/<0;%s1>/*)" % (X, ch), "wpkh(%s/{0,1%s}/*)" % (X, ch),
+        ]
+    # C13-F1 (fix keyhash-raw-hex): a 40-character argument of pkh / pk_h is a raw hash only when it is hex (either
+    # case); before the fix any 40 characters were stored and script_pubkey() raised binascii.Error
+    Z = "z" * 40
+    raw40 = [Z, "ab" * 19 + "zz", "zz" + "ab" * 19, "ab" * 10 + "g" + "ab" * 9 + "a", "ab" * 19 + "a ", " " + "ab" * 19 + "a",
+             "0x" + "ab" * 19, "ab" * 19 + "a\x1f", "ab" * 19 + "a_", "+" + "ab" * 19 + "a", "\u00e9" * 40, "ab" * 19 + "a\u00e9",
+             "AB" * 20, "aBcDeF0123456789" * 2 + "AbCdEf01", "0123456789ABCDEF" * 2 + "abcdef00", "F" * 40, "0" * 40]
+    for h in raw40:
+        res += ["wsh(pkh(%s))" % h, "wsh(c:pk_h(%s))" % h]
+    res += ["sh(wsh(pkh(%s)))" % Z, "sh(pkh(%s))" % Z, "tr(%s,pkh(%s))" % (X, Z), "tr(%s,pkh(%s))" % (X, "AB" * 20),
+            "wsh(pkh([%s/1]%s))" % (fp, "Ab" * 20), "wsh(and_v(v:pkh(%s),pkh(%s)))" % ("AB" * 20, Z),
+            "wsh(or_d(pkh(%s),pkh(%s)))" % ("ab" * 20, "AB" * 19 + "Ag"), "wsh(pkh(%s))" % ("z" * 39),
+            "wsh(pkh(%s))" % ("z" * 41), "wsh(pk(%s))" % Z, "pkh(%s)" % Z, "wpkh(%s)" % Z]
     return res
 
 
@@ -549,6 +570,29 @@ def validate_keys(c, pool):
         h = bytes(r.getrandbits(8) for _ in range(r.choice([0, 32])))
         c.expect("dk.tweak %s %s" % (p.sec().hex(), h.hex() or "-"),
                  "ok " + p.get_public_key().taproot_tweak(h).xonly().hex(), {"kind": "dk"}, proven=False)
+    # C12Y (`KeyCodec Concrete.ops`): the WIF decoder of the driver's key layer on payloads embit refuses or accepts at
+    # the edges — version byte of no network (refused since fix 36f2981; the model accepted it until round 5), wrong
+    # length, wrong compression flag, secret 0 / >= n — and on every accepted one the re-encoded text is the input
+    from embit import base58
+    def wif_answer(t):
+        try:
+            k = ec.PrivateKey.from_wif(t)
+            return "ok %s %s" % (hx(k.wif()), k.sec().hex())
+        except Exception:
+            return "none"
+    sec32 = pool.privs[0].secret
+    payloads = [bytes([v]) + sec32 + fl for v in (0x42, 0x00, 0x81, 0x7f, r.randrange(256)) for fl in (b"", b"\x01")]
+    payloads += [b"\x80" + sec32 + b"\x00", b"\x80" + sec32 + b"\x01\x01", b"\x80" + sec32[:31], b"\x80" + sec32[:31] + b"\x01",
+                 b"\xef" + bytes(32) + b"\x01", b"\xef" + dgen.N.to_bytes(32, "big") + b"\x01",
+                 b"\xef" + (dgen.N - 1).to_bytes(32, "big"), b"\x80" + (1).to_bytes(32, "big") + b"\x01", b"", b"\x80"]
+    for pl in payloads:
+        t = base58.encode_check(pl)
+        a = wif_answer(t)
+        c.expect("dk.wif " + hx(t), a, {"kind": "dk-wif-edge", "payload": pl.hex()}, proven=False)
+        c.count(("dk-wif-edge", pl[:1].hex(), len(pl), a == "none"), nontrivial=True)
+        if a != "none" and a.split()[1] != hx(t):
+            c.fail("KeyCodec: an accepted WIF text does not re-encode to itself", {"kind": "codec", "text": t})
+    c.tally("dk-wif-edge")
 
 
 # ---------------------------------------------------------------------------------------------- run
@@ -604,7 +648,7 @@ def run(tier, seed):
               "branches, hardened steps with h/H/' on private keys) x script expression (multi, sortedmulti, pk, pkh, "
               "multi_a, sortedmulti_a, type-directed random miniscript depth 2-4); indices from {0,1,2^31-1,random} and "
               "2^31 (must fail); every branch and branch=None; canonical and variant spellings; character-level "
-              "mutations; ~230 hand-written texts at the grammar's edges; checksum variants. Non-trivial = ranged or "
+              "mutations; ~330 hand-written texts at the grammar's edges; checksum variants. Non-trivial = ranged or "
               "non-single-key descriptor, every (descriptor, index, branch) script evaluation, every checksum case")
     c.assumptions = ["ASCII text only (Python int() / str.strip() accept further Unicode digits and spaces)",
                      "key objects (BIP32 derivation, Base58, WIF, SEC, taproot tweak) are parameters of the theorems "
